@@ -39,6 +39,7 @@ def build(agents):
     from pydcop.infrastructure.discovery import Directory, Discovery
 
     world = netx.World()
+    netx.CUR = world
     dd = Discovery("orchestrator", "addr_orchestrator")
     directory = Directory(dd)
     dd.use_directory("orchestrator", "addr_orchestrator")
